@@ -254,7 +254,7 @@ fn c15_main(args: &Args, w: &World, started: Instant) {
 
 fn c16_main(args: &Args, w: &std::sync::Arc<World>, started: Instant) {
     let chunks = 16usize;
-    let cases = 24 * tier_mul(args);
+    let cases = 20 * tier_mul(args);
     if args.worker.is_some() {
         let mut shard = Shard::new(args);
         for k in 0..chunks {
